@@ -139,6 +139,12 @@ def cases(ctx):
                 # padding 'none': whole blocks only for ECB/CBC, anything for OFB/CTR, not offered by CFB
                 if (m in ("ecb", "cbc") and L % 16 == 0 and L > 0) or m in ("ofb", "ctr"):
                     yield ("stream", m, L, bs, "none")
+    # input streams that return FEWER bytes than asked for while more data follows (pipes, sockets, raw streams): a short read is
+    # not the end of the input
+    for m in MODES:
+        for L in (1, 17, 33, 100, 8193):
+            for cap in (1, 5, 16, 1000):
+                yield ("stream", m, L, None, "short-%d" % cap)
     for L in list(range(1, 97)) + [1023, 1024, 1025, 4096, 4097, 65536, 65537]:
         for ivi in range(3):
             for ki in range(2):
@@ -356,7 +362,17 @@ def run_case(ctx, case):
     if kind == "stream":
         import io as _io
         _, m, L, bs = case[:4]
-        nopad = len(case) > 4
+        nopad = len(case) > 4 and case[4] == "none"
+        cap = int(case[4].split("-")[1]) if len(case) > 4 and case[4].startswith("short") else None
+
+        class ShortReads(_io.RawIOBase):
+            """read(n) hands out at most `cap` bytes per call"""
+            def __init__(self, data):
+                self.buf = _io.BytesIO(data)
+
+            def read(self, n=-1):
+                return self.buf.read(cap if n is None or n < 0 else min(n, cap))
+        mkin = (lambda d_: ShortReads(d_)) if cap else (lambda d_: _io.BytesIO(d_))
         key = ctx.sym("c16-streamkey", 16)
         iv = ctx.sym("c16-streamiv", 16)
         data = ctx.sym("c16-streamdata-%d" % L, L)
@@ -366,12 +382,12 @@ def run_case(ctx, case):
         if nopad:
             kw["padding"] = "none"
         out = _io.BytesIO()
-        bf.encrypt_stream(mk_mode(m, key, iv if m not in ("ecb", "ctr") else None, 1 if m == "ctr" else None), _io.BytesIO(data), out, **kw)
+        bf.encrypt_stream(mk_mode(m, key, iv if m not in ("ecb", "ctr") else None, 1 if m == "ctr" else None), mkin(data), out, **kw)
         if out.getvalue() != exp:
             o.cls = "differs"
             return o.viol("stream|%s|enc" % m, "encrypt_stream(%s) of %d bytes (block_size %r) differs from the standard result" % (m, L, bs))
         back = _io.BytesIO()
-        bf.decrypt_stream(mk_mode(m, key, iv if m not in ("ecb", "ctr") else None, 1 if m == "ctr" else None), _io.BytesIO(exp), back, **kw)
+        bf.decrypt_stream(mk_mode(m, key, iv if m not in ("ecb", "ctr") else None, 1 if m == "ctr" else None), mkin(exp), back, **kw)
         if back.getvalue() != data:
             o.cls = "differs"
             return o.viol("stream|%s|dec" % m, "decrypt_stream(%s) of %d bytes (block_size %r) does not return the data" % (m, L, bs))
